@@ -1,5 +1,5 @@
 (* Props/C09.v — "Source positions point at the source they describe": property theorems only. *)
-From Verif Require Import Base.Str Syntax.Pos Syntax.Reader Proofs.PosProofs Proofs.ReaderProofs Proofs.LineColProofs.
+From Verif Require Import Base.Str Syntax.Pos Syntax.Reader Syntax.PosCheck Proofs.PosProofs Proofs.ReaderProofs Proofs.LineColProofs Proofs.PosCheckProofs.
 Open Scope N_scope.
 
 (* C09_pos_pack, clause 1: below the limits NewPos is read back exactly by Offset/Line/Col. *)
@@ -83,4 +83,33 @@ Example C09_linecol_fixed_witnesses :
       [92]; [97;32;92];                      (* lone backslash at EOF *)
       [195;169;255];                         (* invalid UTF-8 after a two-byte rune *)
       [97;0;98;13;10;99;92;13;10;100;10;240;159;152;128;101] ] = true.
+Proof. vm_compute. reflexivity. Qed.
+
+(* C09_checker_sound (fragment) — the Coq twin (Syntax/PosCheck.v check_file) of the Go position checker
+   on the node fragment File > Stmt(; | &) > CallExpr > Word with one part > Lit | SglQuoted, using the
+   transliterated Pos()/End() of those node types, is SOUND for the declarative specification FileSpec:
+   every stored and derived position inside the input with the line/col of its offset, start <= end,
+   the literal / quote / separator text standing at its position, statements in source order, every
+   child within its parent.  The twin and the transliterated Pos()/End() are compared with the Go
+   checker and the Go methods on every run (parsed trees and trees with one perturbed position).
+   Partial: the fragment only; the Go checker's matcher "modulo dropped bytes" is the exact prefix test
+   here (sources of the fragment leg contain no NUL, CR, backslash or backquote). *)
+Theorem C09_checker_sound_fragment : forall src f, check_file src f = true -> FileSpec src f.
+Proof. exact check_file_sound. Qed.
+Print Assumptions C09_checker_sound_fragment.
+
+(* what a user gets from it: a literal's Value is exactly the source bytes of [ValuePos, ValueEnd) *)
+Theorem C09_lit_value_is_source_span : forall src f s l, check_file src f = true -> In s f -> In (PLit l) (s_args s) ->
+  firstn (p_off (l_end l) - p_off (l_pos l)) (skipn (p_off (l_pos l)) src) = l_val l.
+Proof. exact lit_value_is_source_span. Qed.
+Print Assumptions C09_lit_value_is_source_span.
+
+(* non-vacuity: the tree of "xy 'a;'\nq &" is accepted, the same tree with ValueEnd one byte late is not *)
+Example C09_checker_example :
+  let src := [120;121;32;39;97;59;39;10;113;32;38] in
+  let good := [ mkstmt (0%nat,1%Z,1%Z) [PLit (mklit (0%nat,1%Z,1%Z) (2%nat,1%Z,3%Z) [120;121]);
+                                        PSgl (mksgl (3%nat,1%Z,4%Z) (6%nat,1%Z,7%Z) [97;59])] None;
+                mkstmt (8%nat,2%Z,1%Z) [PLit (mklit (8%nat,2%Z,1%Z) (9%nat,2%Z,2%Z) [113])] (Some (10%nat,2%Z,3%Z)) ] in
+  let bad :=  [ mkstmt (0%nat,1%Z,1%Z) [PLit (mklit (0%nat,1%Z,1%Z) (3%nat,1%Z,4%Z) [120;121])] None ] in
+  (check_file src good, check_file src bad) = (true, false).
 Proof. vm_compute. reflexivity. Qed.
